@@ -16,7 +16,14 @@ Modelled branch by branch, in the order of the code:
         fragment except `type: object` (`decodeHeader`): no `type` → no value; primitive → parsePrimitive (empty text →
         no value, strconv.ParseInt base 10 / 64 bit, the twelve ParseBool words, the text itself); array →
         strings.Split(",") and parseArray (first item that is empty or untyped → no value, first item that does not
-        parse → error, `items` absent → nil dereference, an explicit `panic` outcome); object → input `Hdr.objDec`;
+        parse → error, `items` absent → nil dereference, an explicit `panic` outcome); object → DecodeObject:
+        propsFromString (name,value,… — or name=value,… when exploded; a later duplicate replaces an earlier one),
+        makeObject / buildResObj over the declared properties and, when additionalProperties is a schema, over the
+        other names (primitive → parsePrimitive, absent / empty / untyped → no entry, object-typed → the text itself,
+        array-typed → error; names outside the schema are dropped; the empty name under a non-object
+        additionalProperties schema → error, because its lookup path is empty and yields the whole parameter map; the
+        two remaining uses of the empty name — a declared property `""`, or `""` under an object-typed
+        additionalProperties schema — re-enter buildResObj on the whole map and are an input, `Hdr.emptyNameDec`);
       - decode error → error; found → Schema.VisitJSON(decoded value, VisitAsResponse [, DisableWriteOnlyValidation])
         (headers are response data since the fix of finding F-C08-2, commit 35101a0), where a present header
         whose decoding yields no value is visited as `null`;
@@ -33,8 +40,8 @@ string, array, object), `nullable`, `readOnly`, `writeOnly`, `maxLength`, `maxim
 mode-independent (fail-fast / first error / multi-error give the same accept/reject), so one Bool function models it.
 
 Inputs of the model that stand for other properties' subject matter:
-  * `Hdr.objDec`  — outcome of DecodeObject (propsFromString / makeObject, C05) on a present header's first value,
-    used for headers whose schema has `type: object` only;
+  * `Hdr.emptyNameDec` — outcome of DecodeObject in the corner where a schema is applied to the empty property name
+    (see above; C05); no generated case reaches it;
   * `Input.bodyDec` — outcome of the JSON (or other non-text) decoder registered for the Content-Type (C06);
   * `canon` — http.CanonicalHeaderKey; `reg` — the body-decoder registry (media type ↦ decoder name).
 -/
@@ -242,15 +249,17 @@ def parsePrim (t : Ty) (raw : String) : Dec :=
   | .array => .err    -- "schema has non primitive type"
   | .object => .err
 
-/-- strings.Split(raw, ",") on characters -/
-def splitCommaChars : List Char → List (List Char)
+/-- strings.Split(raw, d) for a one-character separator, on characters -/
+def splitChars (d : Char) : List Char → List (List Char)
   | [] => [[]]
   | c :: cs =>
-    match splitCommaChars cs with
+    match splitChars d cs with
     | [] => [[]]
-    | h :: t => if c = ',' then [] :: h :: t else (c :: h) :: t
+    | h :: t => if c = d then [] :: h :: t else (c :: h) :: t
 
-def splitComma (raw : String) : List String := (splitCommaChars raw.toList).map String.ofList
+def splitOn (d : Char) (raw : String) : List String := (splitChars d raw.toList).map String.ofList
+
+def splitComma (raw : String) : List String := splitOn ',' raw
 
 def consItem (x : J) : Dec → Dec
   | .val (.arr xs) => .val (.arr (.cons x xs))
@@ -267,12 +276,92 @@ def parseArr (it : OSch) : List String → Dec
       | .val x => consItem x (parseArr it r)
       | d => d
 
-/-- decodeValue with the header decoder on the header's first value `raw`; `objDec` = outcome of DecodeObject -/
-def decodeHeader (s : Sch) (raw : String) (objDec : Dec) : Dec :=
+/-- propsFromString, propDelim = valueDelim = ",": names and values alternate; an odd number of pieces is malformed -/
+def pairUp : List String → Option (List (String × String))
+  | [] => some []
+  | [_] => none
+  | k :: v :: r => (pairUp r).map ((k, v) :: ·)
+
+/-- propsFromString, exploded: every piece is `name=value` (exactly one '=') -/
+def mapKV : List String → Option (List (String × String))
+  | [] => some []
+  | p :: r =>
+    match splitOn '=' p with
+    | [k, v] => (mapKV r).map ((k, v) :: ·)
+    | _ => none
+
+def propsFromString (explode : Bool) (raw : String) : Option (List (String × String)) :=
+  if explode then mapKV (splitComma raw) else pairUp (splitComma raw)
+
+/-- `props[name]` of the Go map the pairs were stored into: the last occurrence wins -/
+def lastVal (k : String) : List (String × String) → Option String
+  | [] => none
+  | (k', v) :: r => match lastVal k r with | some x => some x | none => if k = k' then some v else none
+
+/-- buildResObj for one name of a flat object: `nil` = no entry in the result -/
+def buildProp (p : Sch) : Option String → Dec
+  | none => .nil
+  | some t =>
+    match p.core.ty with
+    | .array => .err              -- "array items must be set with indexes"
+    | .object => .val (.str t)    -- "not the expected type, but return it either way"
+    | ty => parsePrim ty t
+
+def KVs.append : KVs → KVs → KVs
+  | .nil, b => b
+  | .cons k v r, b => .cons k v (KVs.append r b)
+
+/-- the loop over schema.Properties (a Go map: one entry per name — `seen` skips a repeated name of the list) -/
+def buildDeclared (pairs : List (String × String)) : Props → List String → Option KVs
+  | .nil, _ => some .nil
+  | .cons k p r, seen =>
+    if k ∈ seen then buildDeclared pairs r seen else
+    match buildProp p (lastVal k pairs) with
+    | .val x => (buildDeclared pairs r (k :: seen)).map (KVs.cons k x)
+    | .nil => buildDeclared pairs r (k :: seen)
+    | _ => none
+
+/-- the loop over the other names of the value, when additionalProperties is a schema -/
+def buildAddl (pairs : List (String × String)) (ps : Props) (a : Sch) : List String → List String → Option KVs
+  | [], _ => some .nil
+  | k :: ks, seen =>
+    if k ∈ seen || (ps.lookup k).isSome then buildAddl pairs ps a ks seen else
+    if k = "" then none   -- the path of the empty name is empty: deepGet yields the map, not a string
+    else match buildProp a (lastVal k pairs) with
+    | .val x => (buildAddl pairs ps a ks (k :: seen)).map (KVs.cons k x)
+    | .nil => buildAddl pairs ps a ks (k :: seen)
+    | _ => none
+
+/-- a schema is applied to the empty property name in a way that re-enters buildResObj on the whole map -/
+def emptyNameCorner (s : Sch) (pairs : List (String × String)) : Bool :=
+  (s.props.lookup "").isSome ||
+  (match s.addl with
+   | .some a => a.core.ty == .object && pairs.any (fun kv => kv.1 = "")
+   | .none => false)
+
+/-- DecodeObject of the header decoder (simple style) for a flat object schema; `corner` = its outcome in the
+empty-name corner -/
+def decodeObject (s : Sch) (explode : Bool) (raw : String) (corner : Dec) : Dec :=
+  match propsFromString explode raw with
+  | none => .err
+  | some pairs =>
+    if emptyNameCorner s pairs then corner else
+    match buildDeclared pairs s.props [] with
+    | none => .err
+    | some d =>
+      match s.addl with
+      | .none => .val (.obj d)
+      | .some a =>
+        match buildAddl pairs s.props a (pairs.map (·.1)) [] with
+        | none => .err
+        | some e => .val (.obj (d.append e))
+
+/-- decodeValue with the header decoder on the header's first value `raw` -/
+def decodeHeader (s : Sch) (explode : Bool) (raw : String) (corner : Dec) : Dec :=
   match s.core.ty with
   | .any => .nil
   | .array => (match parseArr s.items (splitComma raw) with | .val (.arr .nil) => .nil | d => d)
-  | .object => objDec
+  | .object => decodeObject s explode raw corner
   | t => parsePrim t raw
 
 structure Hdr where
@@ -280,8 +369,10 @@ structure Hdr where
   required : Bool
   /-- `none`: the header is described by `content` -/
   schema : Option Sch
-  /-- outcome of DecodeObject on the header's first value (read for `type: object` schemas only) -/
-  objDec : Dec
+  /-- `explode: true` of the header object (matters for object-valued headers only) -/
+  explode : Bool := false
+  /-- outcome of DecodeObject where a schema is applied to the empty property name (`emptyNameCorner`) -/
+  emptyNameDec : Dec := .err
 
 structure MediaType where
   schema : Option Sch
@@ -331,7 +422,7 @@ def checkHeader (canon : String → String) (woOff : Bool) (hdrs : List (String 
   | some s =>
     match lookup (canon h.name) hdrs with
     | some raw =>
-      match decodeHeader s raw h.objDec with
+      match decodeHeader s h.explode raw h.emptyNameDec with
       | .err => some (.hdrDecode h.name)
       | .panic => some (.hdrPanic h.name)
       | .nil => if visit ⟨true, woOff⟩ .null s then none else some (.hdrSchema h.name)
@@ -487,7 +578,7 @@ def HeaderOK (canon : String → String) (woOff : Bool) (hdrs : List (String × 
   match lookup (canon h.name) hdrs with
   | none => h.required = false
   | some raw => ∀ s, h.schema = some s →
-      ∃ v, specValue (decodeHeader s raw h.objDec) raw = some v ∧ SatRep woOff v s
+      ∃ v, specValue (decodeHeader s h.explode raw h.emptyNameDec) raw = some v ∧ SatRep woOff v s
 
 def BodyOK (reg : List (String × String)) (o : Opts) (i : Input) (r : Resp) : Prop :=
   r.content = [] ∨
@@ -510,7 +601,7 @@ def headerOKB (canon : String → String) (woOff : Bool) (hdrs : List (String ×
   | some raw =>
     match h.schema with
     | none => true
-    | some s => match specValue (decodeHeader s raw h.objDec) raw with | some v => satRepB woOff v s | none => false
+    | some s => match specValue (decodeHeader s h.explode raw h.emptyNameDec) raw with | some v => satRepB woOff v s | none => false
 
 def bodyOKB (reg : List (String × String)) (o : Opts) (i : Input) (r : Resp) : Bool :=
   r.content.isEmpty ||
@@ -561,7 +652,7 @@ end
 /-- the decoding outcome of a declared header on this response (`none`: absent, or described by `content`) -/
 def hdrDec (canon : String → String) (hdrs : List (String × String)) (h : Hdr) : Option Dec :=
   match h.schema, lookup (canon h.name) hdrs with
-  | some s, some raw => some (decodeHeader s raw h.objDec)
+  | some s, some raw => some (decodeHeader s h.explode raw h.emptyNameDec)
   | _, _ => none
 
 /-- F-C08-1: a present header with a schema whose decoding gives no value is visited as `null` -/
